@@ -271,8 +271,9 @@ def compare(ctx, chk, pid, cfg, tier):
         by_id.setdefault(cells[0].atoms["idv"] is not None, {}).setdefault(sig, []).append(cells)
     reps = []
     for has_id, sigs in by_id.items():
-        chk.ob(len(sigs) == 1, "%s/fsm/shape-dependent/%s/%d" % (pid, has_id, len(sigs)),
-               "reassembly [%s]: the transition relation differs between sentence shapes (%d variants among sentences %s a sequence id)" % (cfg, len(sigs), "with" if has_id else "without"))
+        if len(sigs) != 1:
+            # not a violation in itself: every variant is compared with the reference machine below
+            chk.note("%s: the transition relation differs between sentence shapes (%d variants among sentences %s a sequence id); each variant is compared separately" % (cfg, len(sigs), "with" if has_id else "without"))
         for sig, lst in sigs.items():
             reps.append(lst[0])
     _TASK["groups"] = reps
